@@ -274,7 +274,8 @@ SizeOrNeg(r) == IF r.st = "live" THEN Len(r.elems) ELSE -1
 Report(e, kinds) ==
   PrintT(<<"VERDICT", ToJson([h |-> e.h, s |-> e.s, n |-> e.n, line |-> l, kinds |-> kinds,
                               sz0 |-> IF "sz0" \in DOMAIN e THEN e.sz0 ELSE -1,
-                              sz1 |-> IF "sz1" \in DOMAIN e THEN e.sz1 ELSE -1])>>)
+                              sz1 |-> IF "sz1" \in DOMAIN e THEN e.sz1 ELSE -1,
+                              dc |-> IF "dc" \in DOMAIN e THEN e.dc ELSE FALSE])>>)
 
 S0 == [vec |-> vec, el |-> el]
 
@@ -318,6 +319,11 @@ StepOp(e) ==
           \cup lg.bad \cup lf.bad
           \cup UNION {JudgeVec(R.vec[v], ObsOf(e, v), exa[v]) : v \in Vecs}
           \cup UNION {JudgeEl(R.el[x], EObsOf(e, x)) : x \in Elems}
+          \* every live container owns its own block (C09 / C12 independence)
+          \cup (LET blks == [c \in (Vecs \X {"v"}) \cup (Elems \X {"e"}) |->
+                              LET o == IF c[2] = "v" THEN ObsOf(e, c[1]) ELSE EObsOf(e, c[1]) IN
+                              IF o # NoObs /\ o.st = "live" /\ o.blk > 0 THEN o.blk ELSE 0]
+                IN Bad(\A c1, c2 \in DOMAIN blks : (c1 # c2 /\ blks[c1] > 0) => blks[c1] # blks[c2], "SHARED_BLOCK"))
           \cup (IF e.n \notin ElemOps /\ e.v \in Vecs /\ vec[e.v].st = "live"
                 THEN JudgeStability(e, vec[e.v], ob[e.v], ObsOf(e, e.v)) ELSE {})
           \cup (IF e.n \notin ElemOps THEN JudgeTransfer(e, ob) \cup JudgeFootprint(e, ob) ELSE {})
@@ -346,7 +352,8 @@ StepOp(e) ==
        /\ (IF kinds = {} THEN TRUE
            ELSE Report([h |-> e.h, s |-> e.s, n |-> e.n,
                         sz0 |-> IF e.v \in Vecs THEN SizeOrNeg(vec[e.v]) ELSE -1,
-                        sz1 |-> IF e.v \in Vecs THEN SizeOrNeg(R.vec[e.v]) ELSE -1], kinds))
+                        sz1 |-> IF e.v \in Vecs THEN SizeOrNeg(R.vec[e.v]) ELSE -1,
+                        dc |-> e.n \notin ElemOps /\ e.v \in Vecs /\ R.vec[e.v].st = "live" /\ R.vec[e.v].dc], kinds))
        \* after a divergence that leaves the model and the real object in step (layout, stability, footprint,
        \* allocator identity: "soft") the history is judged further, so that a defect is also seen through its
        \* later consequences for the other properties; any other divergence ends the judgement of the history
@@ -376,6 +383,9 @@ TraceNext ==
   /\ LET e == TraceLog[l] IN
      CASE e.e = "begin" -> ResetState
        [] e.e = "crash" -> IF skip THEN Hold      \* the history already has its first divergence
+                           ELSE IF e.n # "finish" /\ ~PreOf(S0, e.n, e.v, e.a)
+                           THEN Report(e, {"DRIVER_PRECONDITION"}) /\ skip' = TRUE
+                                /\ UNCHANGED <<vec, el, heap, objs, ob, obe, ex>>
                            ELSE /\ Report([h |-> e.h, s |-> e.s, n |-> e.n,
                                            sz0 |-> IF e.v \in Vecs THEN SizeOrNeg(vec[e.v]) ELSE -1, sz1 |-> -1],
                                           {"CRASH:" \o e.kind})
